@@ -10,7 +10,7 @@ def scratch_dir(tag='vp'):
     return tempfile.mkdtemp(prefix='%s_%d_' % (tag, os.getpid()), dir=base)
 
 
-def run_verus(mirror_path, modules=None, rlimit=None, threads=16, extra=None, timeout=3000, multiple_errors=12):
+def run_verus(mirror_path, modules=None, rlimit=None, threads=16, extra=None, timeout=1800, multiple_errors=12):
     cmd = [VERUS, os.path.basename(mirror_path), '--output-json', '--time-expanded', '--error-format=json',
            '--multiple-errors', str(multiple_errors), '--num-threads', str(threads)]
     if rlimit:
@@ -19,7 +19,12 @@ def run_verus(mirror_path, modules=None, rlimit=None, threads=16, extra=None, ti
         cmd += ['--verify-module', m]
     cmd += (extra or [])
     t0 = time.time()
-    p = subprocess.run(cmd, cwd=os.path.dirname(mirror_path), capture_output=True, text=True, timeout=timeout)
+    try:
+        p = subprocess.run(cmd, cwd=os.path.dirname(mirror_path), capture_output=True, text=True, timeout=timeout)
+    except subprocess.TimeoutExpired:
+        # a verifier that does not come back: undecided, never an alarm (the caller falls back to the bounded native oracles)
+        return dict(cmd=' '.join(cmd), rc=-9, wall=time.time() - t0, diags=[], raw=['verus timed out after %ss' % timeout], result=None, stdout='',
+                    timed_out=True)
     wall = time.time() - t0
     diags, raw = [], []
     for ln in p.stderr.split('\n'):
